@@ -99,13 +99,14 @@ theorem C07_exit_drains_everything_unbounded (s0 : BSt) (h0 : DrainFresh s0) (hp
 
 /-- **Flushed last — unbounded loop, every tick.** The final state of the unbounded exit loop is `exitFinal` of a state
     `sK` in which the emptiness check answered yes: failure counters reported, every active sink flushed, contexts and
-    loggers reclaimed — and after that flush the log gains nothing but sink-destructor events. -/
+    loggers reclaimed — and after that flush the log gains nothing but sink-destructor events and, when loggers are
+    erased, the events of one more flush of every sink (the head of `_cleanup_invalidated_loggers`, F33 repair). -/
 theorem C07_exit_flushes_last_unbounded (s0 : BSt) (h0 : DrainFresh s0) (hpl : s0.popLog = []) (ops : List Op)
     (tick : Nat) (ht : 0 < tick) :
     let s := runOps s0 ops
     ∃ sK, (allEmpty sK).2 = true ∧ exitOp tick s = { exitFinal (runInj []) sK with backendGone := true } ∧
       ∃ d, (exitOp tick s).log = d ++ (flushSinks (checkFailures (runInj []) (allEmpty sK).1)).log ∧
-        ∀ e ∈ d, ∃ k, e = Ev.sinkDtor k := by
+        ∀ e ∈ d, (∃ k, e = Ev.sinkDtor k) ∨ (∃ k, e = Ev.flushed k ∨ e = Ev.fthrow k) ∨ e = Ev.notify "n:ffail" := by
   intro s
   obtain ⟨sK, _, heK, hform⟩ := C07_exit_limit_form s0 h0 hpl ops tick ht
   have hs' : exitOp tick s = { exitFinal (runInj []) sK with backendGone := true } := by
@@ -114,11 +115,24 @@ theorem C07_exit_flushes_last_unbounded (s0 : BSt) (h0 : DrainFresh s0) (hpl : s
   refine ⟨sK, heK, hs', ?_⟩
   rw [hs']
   obtain ⟨d, hd, hall⟩ := cleanupLoggers_dtors (runInj []) runInj_nil_quiet9
-    (cleanupContexts (flushSinks (checkFailures (runInj []) (allEmpty sK).1)))
-  refine ⟨d, ?_, hall⟩
-  show (exitFinal (runInj []) sK).log = _
-  unfold exitFinal
-  rw [hd, cleanupContexts_log]
+    (preEraseFlush (cleanupContexts (flushSinks (checkFailures (runInj []) (allEmpty sK).1))))
+  have hpre : ∃ blk, (preEraseFlush (cleanupContexts (flushSinks (checkFailures (runInj []) (allEmpty sK).1)))).log =
+      blk ++ (cleanupContexts (flushSinks (checkFailures (runInj []) (allEmpty sK).1))).log ∧
+      ∀ e ∈ blk, (∃ sid, e = Ev.flushed sid ∨ e = Ev.fthrow sid) ∨ e = Ev.notify "n:ffail" := by
+    unfold preEraseFlush
+    split
+    · obtain ⟨blk, e1, _, e3⟩ := PB.flushSinks_log (cleanupContexts (flushSinks (checkFailures (runInj []) (allEmpty sK).1)))
+      exact ⟨blk, e1, e3⟩
+    · exact ⟨[], rfl, fun _ h => by cases h⟩
+  obtain ⟨blk, hb, hblk⟩ := hpre
+  refine ⟨d ++ blk, ?_, ?_⟩
+  · show (exitFinal (runInj []) sK).log = _
+    unfold exitFinal
+    rw [hd, hb, cleanupContexts_log, List.append_assoc]
+  · intro e he
+    rcases List.mem_append.mp he with h | h
+    · exact Or.inl (hall e h)
+    · exact Or.inr (hblk e h)
 
 /-! ### non-vacuity -/
 
